@@ -20,6 +20,7 @@ type PathResult struct {
 	Decisions []int32
 	Siblings  [][]int32
 	SibModels []map[string]uint64
+	SibCVs    [][]uint64
 	Asserts   []assertRec
 	Reached   []string
 	Steps     int64
@@ -90,15 +91,21 @@ func (ex *Exec) resetPath(prefix []int32) {
 	ex.prov = map[*term.T]provRec{}
 	ex.sigs = ex.sigs[:0]
 	ex.sibModels = nil
+	ex.sibCVs = nil
+	ex.cvals = nil
 	ex.model = nil
 }
 
 // RunPath executes the entry function along the given decision prefix.
-func (ex *Exec) RunPath(entry *ssa.Function, entryName string, prefix []int32, startModel map[string]uint64, wantSample bool) (res PathResult) {
+func (ex *Exec) RunPath(entry *ssa.Function, entryName string, prefix []int32, prefixCV []uint64, startModel map[string]uint64, wantSample bool) (res PathResult) {
 	ex.resetPath(prefix)
+	ex.prefixCV = prefixCV
 	ex.startModel = startModel
 	ex.entryName = entryName
 	// keep the solver scopes of the decisions this path shares with the previous one
+	if os.Getenv("GOSYM_NOREUSE") != "" {
+		ex.noReuse = true
+	}
 	c := 0
 	if ex.prevValid && !ex.noReuse {
 		for c < len(ex.prevDecs) && c < len(prefix) && ex.prevDecs[c] == prefix[c] {
@@ -152,6 +159,7 @@ func (ex *Exec) RunPath(entry *ssa.Function, entryName string, prefix []int32, s
 		res.Decisions = ex.decisions
 		res.Siblings = ex.siblings
 		res.SibModels = ex.sibModels
+		res.SibCVs = ex.sibCVs
 		res.Asserts = ex.asserts
 		for l := range ex.reached {
 			res.Reached = append(res.Reached, l)
